@@ -1110,9 +1110,10 @@ def rule_inband_name_mark(ctx, rep, config="c-lib"):
                 l_ = g.inst(strip_casts(g, l_.ops[0]))
             if l_ is None or l_.op != "load" or l_.ty != "i8":
                 continue
-            src = loaded_from(g, l_.ops[0])
-            txt = repr(resolve_addr(g, l_.ops[0]))
-            if "anode" in txt or (src is not None and "anode" in repr(src)):
+            from .c10 import _lin as _named
+            txt = repr(_named(g, c.ops[0]))
+            # the abstract node name: the second result of the read_rule callback (or the parameter that carries it)
+            if "out1(read_rule)" in txt or "anode" in txt:
                 guard = c
     key = "free_tree_reduce/name-mark-outside-the-names"
     if guard is not None:
